@@ -1830,7 +1830,8 @@ def evaluate__round(self: XPathFunction, context: ta.ContextType = None) \
         rounding = 'ROUND_HALF_UP' if number > 0 else 'ROUND_HALF_DOWN'
         with decimal.localcontext() as ctx:
             ctx.prec = max(ctx.prec, number.adjusted() + 2 + min(max(precision, 0), ctx.prec))
-            return type(arg)(number.quantize(exponent, rounding=rounding))
+            cls = int if isinstance(arg, int) else type(arg)  # derived integer types: xs:integer
+            return cls(number.quantize(exponent, rounding=rounding))
     except TypeError as err:
         if isinstance(context, XPathSchemaContext):
             return []
